@@ -2,19 +2,24 @@
 
 G: TLC enumerates MC_Batch -- every tree of the universe (each Lua file absent / healthy / faulty(kind), at most two
    faults) x input form (directory, sub-directory, a directory named d.lua, one file) x output form (none, same,
-   existing file, existing directory, new path with and without extension) x fail-fast x configuration -- and
-   model-checks the internal theorems of spec/darklua/Batch.tla (destinations injective and inside the output, the
+   existing file, existing directory, new path with and without extension) x fail-fast x configuration (no rules, default
+   rules, root-level filters, and the two .luaurc configurations: nested `.luaurc` files that define the same alias
+   differently, every healthy source requiring through that alias, convert_require resolving it) -- and model-checks the internal theorems of spec/darklua/Batch.tla (destinations injective and inside the output, the
    clauses cannot contradict each other, the reference tree is clean, ...).
 R: `dlv batch` renders every (sampled) case into a real temporary directory and, where possible, into in-memory
    resources, runs darklua_core::process, and records the trees before/after, the errors and the paths they name,
-   plus the reference runs (second run, reversed creation order, tree without the faulty files).
+   plus the reference runs (second run, reversed creation order, tree without the faulty files); for the .luaurc
+   configurations also runs with the sources registered in explicit orders (every file before every other file at
+   least once), every healthy file processed alone, and what each output shows of the alias resolution.
 V: TLC (BatchTrace) judges every observation against the clauses of Batch.tla, one boolean per clause."""
 import json, os, random, collections, concurrent.futures
 import vlib
 from vlib import Report, tlc, tlc_ok, dlv, write_ndjson, read_ndjson, log
 
 PID = "C11"
-CLAUSES = ["onetoone", "nothing_else", "inputs_untouched", "reported", "nothing_for_faulty", "isolation", "deterministic", "no_panic"]
+CLAUSES = ["onetoone", "nothing_else", "inputs_untouched", "reported", "nothing_for_faulty", "isolation", "deterministic", "no_panic",
+           "order_independent", "same_as_alone", "nearest_luaurc"]
+RC_CFGS = ("luaurc", "luaurcgap")
 DESC = ("root", "fi", "st", "out", "ff", "cfg")
 KINDS = ["syntax", "utf8", "rule", "unwparent", "unwdir", "blocked"]
 
@@ -92,6 +97,17 @@ def judge(rep, obs_paths, cases, label, par):
                 raise vlib.ToolError("observation %s carries a case the model calls ill-formed" % v["id"])
             if not v["render_ok"]:
                 raise vlib.ToolError("the tree rendered for %s is not the tree of the model (renderer error)" % v["id"])
+            if not v["harness_ok"]:
+                raise vlib.ToolError("the explicit-order / alone runs recorded for %s are not the ones the model asks for (driver error)" % v["id"])
+            if v["rc"]:
+                stats["rc_obs"] += 1
+                stats["rc_order_runs"] += v["norders"]
+                stats["rc_alone_runs"] += v["nalone"]
+                stats["rc_outputs_probed"] += v["nprobed"]
+                if c["nalias"] >= 2:
+                    stats["rc_obs_two_contexts"] += 1
+                    if v["norders"] >= 2:
+                        stats["rc_obs_two_contexts_reordered"] += 1
             stats["obs"] += 1
             stats["world:" + v["world"]] += 1
             if v["nfaulty"] > 0:
@@ -121,9 +137,15 @@ def pick(cases, tier, rng):
         return list(cases)
     # anchors: the complete healthy tree under every output form x configuration x fail-fast
     anchors = [c for c in cases if c["root"] == "in" and all(s == "ok" for s in c["st"])]
-    rest_in = [c for c in cases if c["root"] == "in" and not all(s == "ok" for s in c["st"])]
-    other = [c for c in cases if c["root"] != "in"]
-    return anchors + vlib.sample(rest_in, 3400, rng) + vlib.sample(other, 900, rng)
+    plain = [c for c in cases if not c["rc"]]
+    rest_in = [c for c in plain if c["root"] == "in" and not all(s == "ok" for s in c["st"])]
+    other = [c for c in plain if c["root"] != "in"]
+    # the .luaurc configurations cost ~5 times the runs of another case (explicit orders, alone runs): a smaller sample
+    rc = [c for c in cases if c["rc"]]
+    rc_in = [c for c in rc if c["root"] == "in" and not all(s == "ok" for s in c["st"])]
+    rc_other = [c for c in rc if c["root"] != "in"]
+    return (anchors + vlib.sample(rest_in, 3400, rng) + vlib.sample(other, 900, rng)
+            + vlib.sample(rc_in, 110, rng) + vlib.sample(rc_other, 40, rng))
 
 
 def run(tier):
@@ -166,7 +188,7 @@ def run(tier):
             cov["kind:" + k] += 1
         cov["faulty_files:%d" % min(c["nfaulty"], 3)] += 1
     need = (["input:" + r for r in ("in", "sub", "dlua", "file")] + ["output:" + o for o in ("none", "same", "exfile", "exdir", "exdirdot", "newdir", "newext")]
-            + ["cfg:" + x for x in ("empty", "default", "rootskip", "rootapply")] + ["failfast:True", "failfast:False"] + ["kind:" + k for k in KINDS]
+            + ["cfg:" + x for x in ("empty", "default", "rootskip", "rootapply") + RC_CFGS] + ["failfast:True", "failfast:False"] + ["kind:" + k for k in KINDS]
             + ["faulty_files:0", "faulty_files:1", "faulty_files:2"])
     floor = 10 if tier == "quick" else 100
     for n in need:
@@ -176,6 +198,11 @@ def run(tier):
         raise vlib.ToolError("vacuous run: only %d observations judged" % nobs)
     if stats["world:mem"] < nobs // 10 or stats["obs_with_faulty_all_reported"] < nobs // 10 or stats["obs_with_expected_outputs_all_present"] < nobs // 4:
         raise vlib.ToolError("vacuous run: %s" % dict(stats))
+    # per-directory context: enough observations in which two files with DIFFERENT nearest .luaurc were processed in
+    # several explicit orders, and every produced output of those observations was probed
+    if (stats["rc_obs"] < (150 if tier == "quick" else 5000) or stats["rc_obs_two_contexts_reordered"] < stats["rc_obs"] // 3
+            or stats["rc_order_runs"] < 4 * stats["rc_obs"] or stats["rc_alone_runs"] < stats["rc_obs"] or stats["rc_outputs_probed"] < stats["rc_obs"]):
+        raise vlib.ToolError("vacuous run (.luaurc configurations): %s" % {k: v for k, v in stats.items() if k.startswith("rc_")})
     allres = [g] + ([g2] if g2 else []) + vres
     rep.coverage.update({
         "states": sum(r.distinct for r in allres),
@@ -186,7 +213,19 @@ def run(tier):
         "enumerated_cases": len(cases),
         "cases_replayed": len(chosen),
         "observations": {"file_system": stats["world:fs"], "in_memory": stats["world:mem"]},
-        "process_calls_per_observation": "main + second run (separate output) + reversed-order run + reference run without the faulty files",
+        "process_calls_per_observation": "main + second run (separate output) + reversed-order run + reference run without the faulty files; .luaurc configurations: + one run per explicit registration order (rotations of the forward and of the reverse order) + one run per healthy file alone",
+        "per_directory_context": {
+            "configurations": list(RC_CFGS),
+            "enumerated_cases": sum(1 for c in cases if c["rc"]),
+            "cases_replayed": sum(1 for c in chosen if c["rc"]),
+            "observations": stats["rc_obs"],
+            "observations_with_two_different_nearest_luaurc": stats["rc_obs_two_contexts"],
+            "of_which_processed_in_several_explicit_orders": stats["rc_obs_two_contexts_reordered"],
+            "explicit_order_runs": stats["rc_order_runs"],
+            "alone_runs": stats["rc_alone_runs"],
+            "outputs_whose_alias_resolution_was_judged": stats["rc_outputs_probed"],
+            "clauses": ["order_independent", "same_as_alone", "nearest_luaurc"],
+        },
         "fault_enumeration": {
             "fault_kinds_covered": {k: cov["kind:" + k] for k in KINDS},
             "cases_by_number_of_faulty_files": {k[len("faulty_files:"):]: v for k, v in cov.items() if k.startswith("faulty_files:")},
@@ -200,7 +239,7 @@ def run(tier):
         "information_write_errors_naming_only_the_blocking_path_not_the_file": stats["weakly_reported"],
         "failing_clauses": {k[5:]: v for k, v in stats.items() if k.startswith("fail:")},
         "model_theorems_checked_on_every_case": ["DestInjective", "DestInsideOutput", "DestOutsideInput", "InPlaceIsSource", "MirrorIsOneToOne",
-                                                 "NoConflict", "DestStable", "RefIsClean", "Partition"],
+                                                 "NoConflict", "DestStable", "RefIsClean", "Partition", "RcSound", "AloneIsClean"],
         "checker_cmd": "tlc MC_Batch (enumerate + theorems); dlv batch (render + run + record); tlc BatchTrace (judge)",
     })
     rep.assumptions += ASSUMPTIONS
@@ -222,6 +261,10 @@ ASSUMPTIONS = [
     "with fail-fast and at least one faulty file the contract is the weaker one stated in Batch.tla (Strong = FALSE): determinism and completeness are not demanded",
     "in place, a file excluded by a root-level filter may stay as it is; directories that appear are tolerated by NothingElse",
     "`running twice` = a second process over the tree left by the first (separate output only) and a run on a freshly created tree with files created in reverse order (tmpfs/dir order, fresh hash seeds per thread); no separate OS process is started",
+    "per-directory context = the `.luaurc` files of the tree (configurations luaurc: in, in/sub, in/sub/deep; luaurcgap: tree root, in/sub), all defining the alias `lib` with different targets outside the input; it is consulted by convert_require (current: luau with use_luau_configuration, target: path) and, in the cases that configure bundling, by the bundler; these configurations are enumerated with the output forms none / same / existing directory / new directory",
+    "`enumerated in another order` is also exercised directly for the .luaurc configurations: the sources are registered with WorkerTree::add_source in explicit orders (every rotation of the forward and of the reverse order: every file precedes every other file in some run -- a dependence that needs three files in a particular order may escape) on fresh trees; the destinations handed to add_source are the model's (the main run, which lets darklua collect the work, is judged against the same destinations)",
+    "`as if the bad one were absent` is taken further for the .luaurc configurations: every healthy file is processed alone (the tree minus the other Lua files of the input) and must get the byte-identical output",
+    "which `.luaurc` served a file is read off its output: the remaining require strings, followed from the directory of the SOURCE (convert_require writes paths relative to the requiring file), and the `alias_target` marks of inlined modules; the expectation (nearest ancestor wins, Batch!AliasDir) is Luau's documented rule",
     "symlinks, non-UTF-8 file names, a missing input path, an output inside the input and .darklua.json discovery are outside the universe",
 ]
 
